@@ -29,6 +29,17 @@ impl TearableAtomic for TearableAtomicTime {
     fn tearable_load(&self) -> MonotonicTime {
         // Load each field separately. This can never create invalid values of a
         // `MonotonicTime`, even if the load is torn.
+        #[cfg(nexosim_verif)]
+        {
+            let secs = self.secs.load(Ordering::Relaxed);
+            crate::verif::point(53, 0, 0);
+            let nanos = self.nanos.load(Ordering::Relaxed);
+
+            // A torn pair may be out of range: map it to a valid time that
+            // still exhibits the tear instead of panicking.
+            return MonotonicTime::new(secs, nanos % 1_000_000_000).unwrap();
+        }
+        #[cfg(not(nexosim_verif))]
         MonotonicTime::new(
             self.secs.load(Ordering::Relaxed),
             self.nanos.load(Ordering::Relaxed),
@@ -40,6 +51,8 @@ impl TearableAtomic for TearableAtomicTime {
         // Write each field separately. This can never create invalid values of
         // a `MonotonicTime`, even if the store is torn.
         self.secs.store(value.as_secs(), Ordering::Relaxed);
+        #[cfg(nexosim_verif)]
+        crate::verif::point(50, 0, 0);
         self.nanos.store(value.subsec_nanos(), Ordering::Relaxed);
     }
 }
